@@ -1,7 +1,7 @@
 import torch
 import inspect
 from typing import Callable, List, Tuple, Union, Sequence
-from xitorch._utils.attr import set_attr, del_attr
+from xitorch._utils.attr import get_attr, set_attr, del_attr
 from xitorch._utils.unique import Uniquifier
 from xitorch._core.editable_module import EditableModule
 from contextlib import contextmanager
@@ -44,11 +44,18 @@ class PureFunction(object):
     def _set_all_obj_params(self, allobjparams):
         pass
 
+    def _get_all_obj_params_cur(self) -> List:
+        # the tensors the object holds right now under the names fixed at construction
+        return self._get_all_obj_params_init()
+
     def objparams(self) -> List:
         return self._cur_objparams
 
     def set_objparams(self, objparams: List):
-        # TODO: check if identical with current object parameters
+        # what the object holds right now is what has to come back at restore time; it
+        # can differ from what this view last saw (e.g. a view created while another
+        # view's substitution on the same object was active)
+        self._cur_objparams = self._uniq.get_unique_objs(self._get_all_obj_params_cur())
         identical = _check_identical_objs(objparams, self._cur_objparams)
         self._restore_stack.append((self._cur_objparams, identical))
         if not identical:
@@ -131,6 +138,9 @@ class TorchNNPureFunction(PureFunction):
         self.names = paramnames
         return obj_params
 
+    def _get_all_obj_params_cur(self) -> List:
+        return [get_attr(self.obj, name) for name in self.names]
+
     def _set_all_obj_params(self, objparams: List):
         for (name, param) in zip(self.names, objparams):
             del_attr(self.obj, name)  # delete required in case the param is not a torch.nn.Parameter
@@ -143,6 +153,9 @@ class SingleSiblingPureFunction(PureFunction):
 
     def _get_all_obj_params_init(self) -> List:
         return self.pfunc._get_all_obj_params_init()
+
+    def _get_all_obj_params_cur(self) -> List:
+        return self.pfunc._get_all_obj_params_cur()
 
     def _set_all_obj_params(self, allobjparams: List):
         self.pfunc._set_all_obj_params(allobjparams)
@@ -160,6 +173,12 @@ class MultiSiblingPureFunction(PureFunction):
             objparams = pfunc._get_all_obj_params_init()
             res = res + objparams
             self.cumsum_idx[i + 1] = self.cumsum_idx[i] + len(objparams)
+        return res
+
+    def _get_all_obj_params_cur(self) -> List:
+        res: List[Union[torch.Tensor, torch.nn.Parameter]] = []
+        for pfunc in self.pfuncs:
+            res = res + pfunc._get_all_obj_params_cur()
         return res
 
     def _set_all_obj_params(self, allobjparams: List):
